@@ -246,6 +246,8 @@ def run(ctx):
     logs, nbad = judge_batch(ctx, "V", vs, "v")
     ctx.sample({"mode": "V", "script": vs[0], "log_head": logs[0][:8]})
     ctx.stage("V", kind="code->spec", histories=nv, rejected=nbad, events=sum(len(l) for l in logs))
+    import legacy_extra
+    legacy_extra.run_stage(ctx)          # growth beyond the list: testPort handshake and query_enable_motors decode (observations only)
     ctx.trusted += ["TLC 1.8", "harness/c07.py LegacyPort (cross-checked against LegacyOps by the desync clauses)", "vlib parser"]
     ctx.assumptions += ["a timeout is an empty read; faults are serial.SerialException at a write or read, an 'Err:' line, or silence",
                         "legacy board answers per the EBB documentation: data line + OK, or one line for a/i/mr/pi/qm/qg/v"]
